@@ -84,6 +84,12 @@ func newScanner(snapshot *KVSnapshot, startKey []byte, endKey []byte, batchSize 
 		reverse:      reverse,
 		nextEndKey:   endKey,
 	}
+	if reverse && len(startKey) > 0 && len(endKey) > 0 && bytes.Compare(startKey, endKey) >= 0 {
+		// Empty range: do not send a request whose lower bound lies outside the region that ends at the upper bound.
+		scanner.eof = true
+		scanner.Close()
+		return scanner, nil
+	}
 	err := scanner.Next()
 	if tikverr.IsErrNotFound(err) {
 		return scanner, nil
